@@ -79,11 +79,15 @@ func (scp *Isolated) Stop() {
 
 // Err return cumulative error if the scope context contains any error
 func (scp *Isolated) Err() error {
+	scp.errorsMU.Lock()
+	defer scp.errorsMU.Unlock()
 	return goaterr.ToError(scp.errors)
 }
 
 // Errors return scope errors
 func (scp *Isolated) Errors() []error {
+	scp.errorsMU.Lock()
+	defer scp.errorsMU.Unlock()
 	return scp.errors
 }
 
